@@ -3,7 +3,10 @@ harness' observations (crates/astria-sequencer/src/app/verif.rs + verif_ledger.r
 driver input, and the base CaseCheck class.  The property monitors live in c01.py .. c04.py.
 
 Script grammar: harness/notes/sequencer_app_harness.md plus the ops of verif_ledger.rs
-(`txr`, `exec` with fee/deposit lines, `deposits`, `bdeposits`)."""
+(`txr`, `exec` with fee/deposit lines, `deposits`, `bdeposits`, `setnonce <acct> <u32>`, and the
+action `ibcrelay bad=<k>` = an IbcRelay message that always fails execution: fatally before the
+Blackburn upgrade, non-fatally afterwards - `exec .. err=<class> unchanged=<b> included=1`, resp.
+`txres <id> code=10` in a `block`)."""
 import hashlib
 import os
 import re
@@ -23,7 +26,7 @@ KINDS = ["transfer", "rollup", "ics20w", "initbridge", "lock", "unlock", "btrans
          "valupdate", "feeasset", "feechange", "relayer", "sudochange", "ibcsudo", "recover", "pairs", "markets"]
 PAYING = {"transfer", "rollup", "ics20w", "initbridge", "lock", "unlock", "btransfer", "bsudo"}
 GROUP = {"sudochange": 1, "ibcsudo": 1, "relayer": 2, "feechange": 2, "feeasset": 2, "initbridge": 3, "bsudo": 3,
-         "rollup": 4, "transfer": 4, "valupdate": 4, "ics20w": 4, "lock": 4, "unlock": 4, "btransfer": 4}
+         "rollup": 4, "transfer": 4, "valupdate": 4, "ics20w": 4, "lock": 4, "unlock": 4, "btransfer": 4, "ibcrelay": 4}
 SHARDS = int(os.environ.get("VERIF_LEDGER_SHARDS", "8"))
 
 
@@ -242,6 +245,7 @@ class Trace:
                     e["status"] = "err"
                     e["cls"] = kv["err"]
                     e["unchanged"] = kv.get("unchanged")
+                    e["included"] = kv.get("included") == "1"     # failed non-fatally: stays in the block
                 elif "constructerr" in kv:
                     e["status"], e["cls"] = "constructerr", kv["constructerr"]
                 else:
@@ -270,7 +274,7 @@ class Trace:
                 ev.append({"k": "end", "ok": "height" in kv, "cls": kv.get("err"), "line": first})
             elif op in ("deposits", "bdeposits"):
                 ev.append({"k": op, "list": [parse_deposit(l.split()[1:]) for l in lines[1:]], "line": first})
-            elif op in ("mint", "allowfee", "escrow", "ibcchan"):
+            elif op in ("mint", "allowfee", "escrow", "ibcchan", "setnonce"):
                 ev.append({"k": "god", "op": op, "args": t[1:], "line": first})
             elif op == "advance":
                 ev.append({"k": "advance", "line": first})
@@ -318,20 +322,21 @@ class Trace:
                     i = j - 1
             i += 1
 
-    def successful_txs(self):
-        """tx definitions (with the block kind) of every transaction that took effect in a committed block"""
+    def successful_txs(self, with_pos=False):
+        """tx definitions of every transaction that took effect in a committed block, in history order
+        (with_pos: pairs (index of the event in which it took effect, tx definition))"""
         out = []
         for kind, b, e, execs in self.blocks():
             if kind == "block":
                 for i, st, x, tx in self.events[b]["results"]:
                     if st == "code" and x == "0" and tx is not None:
-                        out.append(tx)
+                        out.append((b, tx))
             elif kind == "manual":
                 for j in execs:
                     ex = self.events[j]
                     if ex["status"] == "ok" and ex["tx"] is not None:
-                        out.append(ex["tx"])
-        return out
+                        out.append((j, ex["tx"]))
+        return out if with_pos else [tx for _, tx in out]
 
 
 # ------------------------------------------------------------------------------------------ value flows
@@ -391,6 +396,7 @@ class Gen:
         self.evn = 0
         self.used_evids = []
         self.defined = []        # tx ids defined and (probably) executed: candidates for replay
+        self.nonce_edge = set()  # accounts whose nonce was put to the top of the u32 range
 
     # -- helpers
     def emit(self, s):
@@ -454,6 +460,11 @@ class Gen:
         g += " blackburn=%d" % bb
         if self.adv and r.random() < 0.12:
             g += " fees=none"           # every action is disabled (no fee components stored)
+        # IBC relayer accounts (the only possible signers of an IbcRelay action)
+        self.relayers = set()
+        if r.random() < 0.7:
+            self.relayers = set(r.sample(["a3", "a4", "a5"], r.choice([1, 1, 2])))
+            g += " relayers=%s" % ",".join(sorted(self.relayers))
         self.emit(g)
         self.emit("advance %d" % r.choice([2, 2, 3]))
         self.channels = []
@@ -465,7 +476,6 @@ class Gen:
             self.channels.append("channel-1")
         self.emit("dump")
         self.feeassets = {"s0"}
-        self.relayers = set()
         self.bridges = {}
         # funding (inside one manual block: a single commit): every account used as a signer gets
         # native funds; most get the voucher / plain assets too; boundary balances are sprinkled in
@@ -603,6 +613,12 @@ class Gen:
         s = signer or self.user()
         return s, "rollup id=r%d len=%d fee=%s" % (r.randint(0, 3), r.choice([1, 1, 10, 100, 1000] + ([0] if r.random() < 0.2 else [])), self.fee_asset())
 
+    def a_ibcrelay(self, signer=None):
+        """an IbcRelay message that fails execution; only an IBC relayer can even construct it"""
+        r = self.r
+        s = signer or (r.choice(sorted(self.relayers)) if self.relayers and r.random() < 0.9 else self.user())
+        return s, "ibcrelay bad=%d" % r.randint(0, 3)
+
     def a_valupdate(self, signer=None):
         r = self.r
         s = signer or (self.sudo if r.random() < 0.8 else self.acct(0, 5))
@@ -640,14 +656,15 @@ class Gen:
     def general_bundle(self, n=None, signer=None):
         r = self.r
         n = n or r.choice([1, 1, 2, 2, 3, 4])
-        w = {"c01": [5, 3, 2, 2, 3, 2, 1], "c02": [3, 2, 4, 3, 3, 1, 3], "c03": [4, 3, 3, 2, 2, 2, 1],
-             "c04": [1, 5, 5, 4, 4, 1, 0]}[self.focus]
-        gens = [self.a_transfer, self.a_lock, self.a_unlock, self.a_btransfer, self.a_ics20w, self.a_rollup, self.a_valupdate]
+        w = {"c01": [5, 3, 2, 2, 3, 2, 1, 0.7], "c02": [3, 2, 4, 3, 3, 1, 3, 0.7], "c03": [4, 3, 3, 2, 2, 2, 1, 1.5],
+             "c04": [1, 5, 5, 4, 4, 1, 0, 0.7]}[self.focus]
+        gens = [self.a_transfer, self.a_lock, self.a_unlock, self.a_btransfer, self.a_ics20w, self.a_rollup, self.a_valupdate,
+                self.a_ibcrelay]
         acts = []
         for _ in range(n):
             g = r.choices(gens, weights=w)[0]
             s, a = g(signer)
-            if signer is None and g in (self.a_unlock, self.a_btransfer, self.a_valupdate):
+            if signer is None and g in (self.a_unlock, self.a_btransfer, self.a_valupdate, self.a_ibcrelay):
                 signer = s          # authority-bound actions fix the signer of the bundle
             acts.append(a)
         if signer is None:
@@ -720,8 +737,13 @@ class Gen:
         signer = self.acct(3, 5)
         pre = []
         acts = []
-        mode = r.choice(["funds", "overflow", "dupevid", "funds"])
+        mode = r.choice(["funds", "overflow", "dupevid", "funds"] + (["ibcrelay", "ibcrelay"] if self.relayers else []))
         wd_bridge = None
+        if mode == "ibcrelay":
+            # fails at the IbcRelay action: a fatal error before Blackburn, afterwards a non-fatal one (the
+            # transaction stays in the block with an error code) - without a trace in both eras
+            signer = r.choice(sorted(self.relayers))
+            pre.append("mint %s s0 %d" % (signer, 10 ** 12))
         if mode == "dupevid":
             cands = [b for b, br in self.bridges.items() if re.fullmatch(r"a[0-9]", br["withdrawer"])]
             if not cands:
@@ -742,6 +764,8 @@ class Gen:
                     pre.append("mint %s s2 %d" % (victim, U128))
                     pre.append("mint %s s2 %d" % (signer, 10))
                     acts.append("transfer to=%s amt=1 asset=s2 fee=s0" % victim)
+                elif mode == "ibcrelay":
+                    acts.append("ibcrelay bad=%d" % r.randint(0, 3))
                 else:
                     acts.append("unlock to=a5 amt=1 fee=s0 bridge=%s memo=- blk=2 evid=%s" % (wd_bridge, ev))
             else:
@@ -833,6 +857,210 @@ class Gen:
         self.emit("block %s" % t3)
         self.emit("dump")
 
+    def run_txs(self, plan, manual):
+        """execute the planned transactions [(signer, [actions], expected to take effect)] in one block: either
+        one by one (`begin` / `exec` / `end`, each defined right before it runs, a dump after every step) or
+        all at once through `block` (nonces counted per signer over the transactions expected to take effect)"""
+        if manual:
+            self.emit("begin")
+            self.emit("dump")
+            for signer, acts, _ in plan:
+                t = self.tx_lines(signer, acts)
+                self.defined.append(t)
+                self.emit("exec %s" % t)
+                self.emit("dump")
+            self.emit("deposits")
+            self.emit("end")
+            self.emit("bdeposits")
+            self.emit("dump")
+            return
+        ids, deltas = [], {}
+        for signer, acts, ok in plan:
+            d = deltas.get(signer, 0)
+            t = self.tx_lines(signer, acts, "%+d" % d)
+            self.defined.append(t)
+            if ok:
+                deltas[signer] = d + 1
+            ids.append(t)
+        self.emit("dump")
+        self.emit("block " + " ".join(ids))
+        self.emit("bdeposits")
+        self.emit("dump")
+
+    def fee_payment(self, payer, asset):
+        """one or two fee-paying actions of `payer` with the fee in `asset`"""
+        r = self.r
+        acts = []
+        for _ in range(r.choice([1, 1, 2])):
+            c = r.random()
+            if c < 0.5 or not self.bridges:
+                acts.append("transfer to=%s amt=%d asset=s0 fee=%s" % (self.acct(0, 9), r.choice([1, 10, 1000]), asset))
+            elif c < 0.75:
+                acts.append("rollup id=r%d len=%d fee=%s" % (r.randint(0, 3), r.choice([1, 10, 100]), asset))
+            else:
+                b = r.choice(sorted(self.bridges))
+                acts.append("lock to=%s amt=%d asset=%s fee=%s dest=%s" % (b, r.choice([1, 3]), self.bridges[b]["asset"], asset, self.dest()))
+        return acts
+
+    def feeasset_scenario(self):
+        """the set of allowed fee assets changes between fee payments of ONE block: removal after a payment
+        (the collected fee must still reach the fee recipient), payment after a removal (must fail), addition
+        then payment, re-addition"""
+        r = self.r
+        self.emit("# scenario feeasset")
+        x = r.choice(["s1", "s3"])
+        y = "s3" if x == "s1" else "s1"
+        payers = r.sample(["a3", "a4", "a5"], 3)
+        self.emit("allowfee s0")
+        self.emit("allowfee %s" % x)
+        self.feeassets |= {"s0", x}
+        for p in payers:
+            self.emit("mint %s %s %d" % (p, x, r.choice([10 ** 9, 10 ** 12])))
+            self.emit("mint %s %s %d" % (p, y, r.choice([10 ** 9, 10 ** 12])))
+            self.emit("mint %s s0 %d" % (p, 10 ** 12))
+        if r.random() < 0.3:
+            self.emit("mint %s %s %d" % (self.sudo, x, r.choice([0, 5, U128 - 10 ** 6])))     # the fee recipient's own holding
+        y_allowed = y in self.feeassets
+        pattern = r.choice(["pay-remove", "pay-remove-pay", "remove-pay", "add-pay", "pay-remove-add-pay", "pay-remove-pay-add-pay",
+                            "pay-pay-remove"])
+        plan = []
+        k = 0
+        allowed = True
+        for step in pattern.split("-"):
+            if step == "pay":
+                plan.append((payers[k % 3], self.fee_payment(payers[k % 3], x), allowed))
+                k += 1
+            elif step == "remove":
+                plan.append((self.sudo, ["feeasset remove=%s" % x], allowed))
+                allowed = False
+            else:
+                if pattern == "add-pay":             # a different asset becomes allowed and is used at once
+                    plan.append((self.sudo, ["feeasset add=%s" % y], not y_allowed))
+                    plan.append((payers[k % 3], self.fee_payment(payers[k % 3], y), True))
+                    k += 1
+                    self.feeassets.add(y)
+                    break
+                plan.append((self.sudo, ["feeasset add=%s" % x], not allowed))
+                allowed = True
+        if allowed:
+            self.feeassets.add(x)
+        else:
+            self.feeassets.discard(x)
+        self.run_txs(plan, manual=r.random() < 0.55)
+
+    def nonce_scenario(self):
+        """an account at the top of the u32 nonce range: u32::MAX - 1 executes once more, at u32::MAX every
+        transaction must fail (checked_add), also when it is replayed in later blocks"""
+        r = self.r
+        self.emit("# scenario nonce")
+        fresh = [a for a in ["a3", "a4", "a5", "a10", "a11"] if a not in self.nonce_edge]
+        who = r.choice(fresh or ["a3", "a4", "a5", "a10", "a11"])
+        self.nonce_edge.add(who)
+        start = r.choice([U32 - 1, U32 - 1, U32])
+        self.emit("mint %s s0 %d" % (who, 10 ** 12))
+        self.emit("setnonce %s %d" % (who, start))
+        self.emit("dump")
+
+        def act():
+            return r.choice(["transfer to=%s amt=%d asset=s0 fee=s0" % (self.acct(0, 9), r.choice([1, 1000])),
+                             "rollup id=r1 len=%d fee=s0" % r.choice([1, 10])])
+        if r.random() < 0.55:
+            self.emit("begin")
+            self.emit("dump")
+            ids = []
+            for _ in range(2 if start == U32 - 1 else 1):
+                t = self.tx_lines(who, [act()])
+                ids.append(t)
+                self.emit("exec %s" % t)
+                self.emit("dump")
+            self.emit("exec %s" % ids[-1])              # the transaction carrying nonce u32::MAX, again
+            self.emit("dump")
+            if r.random() < 0.5:
+                t = self.tx_lines(who, [act()], "+1")   # clamped to u32::MAX
+                ids.append(t)
+                self.emit("exec %s" % t)
+                self.emit("dump")
+            self.emit("deposits")
+            self.emit("end")
+            self.emit("bdeposits")
+            self.emit("dump")
+            # ... and in the next block
+            if r.random() < 0.5:
+                self.emit("begin")
+                self.emit("dump")
+                self.emit("exec %s" % ids[-1])
+                self.emit("dump")
+                self.emit("end")
+                self.emit("dump")
+            else:
+                self.emit("block %s" % ids[-1])
+                self.emit("dump")
+        else:
+            ids = []
+            for k in range(2 if start == U32 - 1 else 1):
+                ids.append(self.tx_lines(who, [act()], "%+d" % k))
+            self.emit("dump")
+            self.emit("block " + " ".join(ids))
+            self.emit("dump")
+            self.emit("block %s" % ids[-1])             # replay of the transaction carrying nonce u32::MAX
+            self.emit("dump")
+            t = self.tx_lines(who, [act()])
+            self.emit("block %s %s" % (ids[-1], t))
+            self.emit("dump")
+        self.defined.extend(ids)
+
+    def relay_scenario(self):
+        """bundles [visible actions..., failing IbcRelay, ...] signed by a relayer, alone and mixed with
+        ordinary, dropped and relayer-removing transactions in one block"""
+        r = self.r
+        self.emit("# scenario relay")
+        if self.relayers and r.random() < 0.8:
+            who = r.choice(sorted(self.relayers))
+        else:
+            who = r.choice(["a3", "a4", "a5"])
+            t = self.tx_lines(self.ibcsudo, ["relayer add=%s" % who])
+            self.emit("block %s" % t)
+            self.emit("dump")
+            self.relayers.add(who)
+        self.emit("mint %s s0 %d" % (who, 10 ** 12))
+        other = r.choice([a for a in ["a3", "a4", "a5"] if a != who])
+
+        def bundle():
+            n = r.randint(1, 4)
+            i = r.randrange(n)
+            acts = []
+            for j in range(n):
+                if j == i:
+                    acts.append("ibcrelay bad=%d" % r.randint(0, 3))
+                    continue
+                c = r.random()
+                if c < 0.45 or not self.bridges:
+                    acts.append("transfer to=%s amt=%d asset=s0 fee=s0" % (self.acct(0, 9), r.choice([1, 10, 1000])))
+                elif c < 0.75:
+                    b = r.choice(sorted(self.bridges))
+                    acts.append("lock to=%s amt=%d asset=%s fee=s0 dest=%s" % (b, r.choice([1, 3]), self.bridges[b]["asset"], self.dest()))
+                elif c < 0.9:
+                    acts.append("rollup id=r1 len=%d fee=s0" % r.choice([1, 20]))
+                else:
+                    acts.append("ibcrelay bad=%d" % r.randint(0, 3))
+            return acts
+        plan = []
+        for _ in range(r.choice([1, 2, 3])):
+            c = r.random()
+            if c < 0.55:
+                plan.append((who, bundle(), False))
+            elif c < 0.7:
+                plan.append((other, ["transfer to=%s amt=%d asset=s0 fee=s0" % (self.acct(0, 9), r.choice([1, 10]))], True))
+            elif c < 0.8:
+                plan.append((other, ["transfer to=%s amt=6 asset=s2 fee=s0" % self.acct(0, 9)], False))     # dropped: no funds
+            elif c < 0.9:
+                plan.append((who, ["transfer to=%s amt=%d asset=s0 fee=s0" % (self.acct(0, 9), r.choice([1, 10]))], True))
+            else:
+                plan.append((self.ibcsudo, ["relayer remove=%s" % who], True))      # the relayer check then fails at execution
+                plan.append((who, bundle(), False))
+                self.relayers.discard(who)
+        self.run_txs(plan, manual=r.random() < 0.5)
+
     def manual_block(self):
         r = self.r
         self.emit("begin")
@@ -883,8 +1111,15 @@ class Gen:
         nblocks = r.choice([1, 2, 3, 3, 4, 5]) if self.quick else r.choice([2, 3, 4, 5, 5])
         for _ in range(nblocks):
             x = r.random()
+            y = r.random()
             if x < (0.1 if self.focus == "c01" else 0.02) and self.sudo:
                 self.f9_scenario()
+            elif y < {"c01": 0.2, "c03": 0.06}.get(self.focus, 0.04):
+                self.feeasset_scenario()
+            elif y < {"c01": 0.23, "c03": 0.18}.get(self.focus, 0.07):
+                self.nonce_scenario()
+            elif y < {"c01": 0.27, "c03": 0.32}.get(self.focus, 0.11):
+                self.relay_scenario()
             elif x < 0.68:
                 self.manual_block()
             else:
@@ -930,7 +1165,9 @@ class LedgerCheck(CaseCheck):
         "IBC core (send_packet_check / send_packet_execute) is an oracle bit per channel: open transfer channel written by `ibcchan`; "
         "incoming ICS-20 packets (recv/ack/timeout, refunds) are property C18's and are not generated here",
         "only the post-Aspen validator-update path is modelled (genesis aspen=1, histories start at height >= 3); Blackburn activation "
-        "(disableable bridge deposits) is modelled with its activation height; price-feed, IbcRelay and RecoverIbcClient actions are not generated",
+        "(disableable bridge deposits, IbcRelay failures become non-fatal) is modelled with its activation height; price-feed and "
+        "RecoverIbcClient actions are not generated; the only IbcRelay message generated is one that always fails execution (a client "
+        "upgrade for a non-existing client): successful relaying (IBC core, incoming packets) is property C18's",
         "error texts are abstracted to the harness' error classes; when several actions of one transaction fail construction the class "
         "reported by the code is one of the model's (convert_actions runs the constructions concurrently)",
         "destination accounts are table accounts a0..a15 and channels channel-0..2 only (balances of other addresses are not dumped)",
@@ -1097,15 +1334,17 @@ class LedgerCheck(CaseCheck):
                     for a in parse_tx_actions(t[4:]):
                         c["action_" + a["name"]] += 1
                     c["txs"] += 1
-                elif t and t[0] in ("block", "begin", "mint"):
+                elif t and t[0] in ("block", "begin", "mint", "setnonce"):
                     c["op_" + t[0]] += 1
+                elif len(t) >= 3 and t[0] == "#" and t[1] == "scenario":
+                    c["scenario_" + t[2]] += 1
             for l in il:
                 if l.startswith("exec "):
                     if " ok " in l + " ":
                         c["exec_ok"] += 1
                     else:
                         m = re.search(r"(err|constructerr)=(\S+)", l)
-                        c["exec_%s_%s" % (m.group(1), m.group(2)) if m else "exec_other"] += 1
+                        c["exec_%s_%s%s" % (m.group(1), m.group(2), "_nonfatal" if " included=1" in l else "") if m else "exec_other"] += 1
                 elif l.startswith("txres "):
                     m = re.search(r"(code|dropped|constructerr)=(\S+)", l)
                     c["txres_%s_%s" % (m.group(1), m.group(2)) if m else "txres_unknown"] += 1
